@@ -868,17 +868,17 @@ pub fn pump_source(name: &str, d: usize) -> (String, Option<MemFs>) {
         "supports-not" => format!("@supports {}(a:b){}{{c{{d:e}}}}", rep("not ("), rep(")")),
         "w-idents" => format!("@for $i from 1 through {} {{ a {{ p-#{{$i}}: v#{{$i}} }} }}", d),
         "w-selectors" => format!("@for $i from 1 through {} {{ .c-#{{$i}} {{ x: y }} }}", d),
-        "w-compound" => format!("$s: \"\"; @for $i from 1 through {} {{ $s: $s + \".k#{{$i}}\"; }} #{{$s}} {{ x: y }}", d.min(20000)),
+        "w-compound" => format!("$s: \"\"; @for $i from 1 through {} {{ $s: $s + \".k#{{$i}}\"; }} #{{$s}} {{ x: y }}", d.min(6000)),
         "w-string" => format!("$s: \"ab\"; @while str-length($s) < {} {{ $s: $s + $s; }} a {{ l: str-length($s); u: str-length(to-upper-case($s)); i: str-index($s, \"ba\") }}", d),
         "w-args" => format!("@function f($a...) {{ @return length($a); }} a {{ b: f({}) }}", (0..d.min(20000)).map(|i| i.to_string()).collect::<Vec<_>>().join(",")),
         "w-decls" => format!("a {{ {} }}", (0..d).map(|i| format!("p{}: {};", i % 977, i)).collect::<String>()),
-        "w-extends" => format!("%p {{ x: y }} @for $i from 1 through {} {{ .e-#{{$i}} {{ @extend %p; }} }}", d.min(5000)),
+        "w-extends" => format!("%p {{ x: y }} @for $i from 1 through {} {{ .e-#{{$i}} {{ @extend %p; }} }}", d.min(1500)),
         "w-placeholders" => format!("@for $i from 1 through {} {{ %p-#{{$i}} {{ x: $i }} .u-#{{$i}} {{ @extend %p-#{{$i}}; }} }}", d.min(20000)),
         "w-media" => format!("@for $i from 1 through {} {{ @media (min-width: #{{$i}}px) {{ a {{ x: $i }} }} }}", d),
         "w-vars" => format!("{} a {{ b: $v{} }}", (0..d.min(100000)).map(|i| format!("$v{}: {};", i, i)).collect::<String>(), d.min(100000) - 1),
         "w-functions" => format!("{} a {{ b: f{}() }}", (0..d.min(30000)).map(|i| format!("@function f{}(){{@return {}}}", i, i)).collect::<String>(), d.min(30000) - 1),
         "w-list" => format!("$l: ({}); a {{ n: length($l); x: nth($l, -1); i: index($l, {}) }}", (0..d.min(100000)).map(|i| i.to_string()).collect::<Vec<_>>().join(","), d.min(100000) - 1),
-        "w-map" => format!("$m: ({}); a {{ n: length($m); x: map-get($m, k{}) }}", (0..d.min(30000)).map(|i| format!("k{}: {}", i, i)).collect::<Vec<_>>().join(","), d.min(30000) - 1),
+        "w-map" => format!("$m: ({}); a {{ n: length($m); x: map-get($m, k{}) }}", (0..d.min(6000)).map(|i| format!("k{}: {}", i, i)).collect::<Vec<_>>().join(","), d.min(6000) - 1),
         "w-keyframes" => format!("@keyframes k {{ {} }}", (0..d.min(100000)).map(|i| format!("{}% {{ x: {} }}", (i % 10001) as f64 / 100.0, i)).collect::<String>()),
         "w-comments" => format!("{} a {{ b: c }}", (0..d.min(100000)).map(|i| format!("/* c{} */", i)).collect::<String>()),
         "import-chain" => {
